@@ -109,10 +109,12 @@ def run(chk):
         docs = docs[:len(names)] + r.sample(docs[len(names):], 700)
     items = [("d%d" % i, d) for i, d in enumerate(docs)]
     pred = C.places(chk, items)
-    reqs = [{"id": i, "src": C.build_document(d)[0], "type_name": "Doc", "modes": ["generate", "reject", "omit"]} for i, d in items]
+    # the type name (file stem) is the same input to every mode: it must not tell the modes apart, whatever it looks like
+    TYPE_NAMES = ["Doc", "Doc", "settings-page", "2ndPage", "\u00dcbersicht", "My Type", "a.b", "class", "Doc_1", "ui_", "x", "\u30d5\u30a9\u30fc\u30e0"]
+    reqs = [{"id": i, "src": C.build_document(d)[0], "type_name": TYPE_NAMES[n % len(TYPE_NAMES)], "modes": ["generate", "reject", "omit"]} for n, (i, d) in enumerate(items)]
     extra = [("k%d" % n, "import qmluic.QtWidgets\n" + q + "\n", what) for n, (what, q) in enumerate(KINDS)]
     extra += [("x%d" % n, open(f).read(), os.path.basename(f)) for n, f in enumerate(sorted(glob.glob(os.path.join(REPO, "examples", "*.qml"))))]
-    reqs += [{"id": i, "src": q, "type_name": "Doc", "modes": ["generate", "reject", "omit"]} for i, q, _ in extra]
+    reqs += [{"id": i, "src": q, "type_name": TYPE_NAMES[n % len(TYPE_NAMES)], "modes": ["generate", "reject", "omit"]} for n, (i, q, _) in enumerate(extra)]
     # documents that instantiate QML components (file based): <customwidgets> is part of the form in every mode
     comp = {"MyPanel.qml": "import qmluic.QtWidgets\nQWidget { QLabel { id: inner } }\n", "MyButton.qml": "import qmluic.QtWidgets\nQPushButton { }\n",
             "sub/Deep.qml": "import qmluic.QtWidgets\nQLabel { }\n"}
